@@ -62,6 +62,7 @@ def to_int(val: Any) -> int:
         isinstance(val, Decimal)
         and MAX_STR_INT != 0
         and val.is_finite()
+        and not val.is_zero()
         and val.adjusted() >= MAX_STR_INT
     ):
         # int(Decimal("1E+999999999")) would build an integer of a billion digits.
